@@ -26,9 +26,9 @@ fn arr<const D: usize>(v: &[u8]) -> [usize; D] {
 }
 
 fn offset(dims: &[usize], idx: &[usize]) -> usize {
-    let mut off = 0;
+    let mut off = 0usize;
     for i in 0..dims.len() {
-        off = off * dims[i] + idx[i];
+        off = off.wrapping_mul(dims[i]).wrapping_add(idx[i]);
     }
     off
 }
@@ -101,6 +101,13 @@ fn shape<const D: usize>(dv: &[u8]) -> CaseResult {
                 continue; // vary the other coordinates, replace this one
             }
             let mut extras = vec![dims[dim], dims[dim] + 1];
+            // huge values whose product with the stride wraps around in builds without overflow checks
+            let stride0: usize = dims[dim + 1..].iter().product();
+            extras.extend_from_slice(&[1usize << 62, 1usize << 63, usize::MAX, usize::MAX / 2 + 1, 1usize << 32, (usize::MAX / stride0.max(1)).wrapping_add(1), (1usize << 63) / stride0.max(1) * 2]);
+            for e in [usize::MAX / stride0.max(1) + 1 + idx[D - 1], (usize::MAX - len) / stride0.max(1) + 2] {
+                extras.push(e);
+            }
+            extras.retain(|&e| e >= dims[dim]);
             // the largest value of this coordinate whose flattened offset is still inside the storage
             let stride: usize = dims[dim + 1..].iter().product();
             let base: usize = {
@@ -219,6 +226,8 @@ fn big<const D: usize>(dv: &[u32], seed: u32) -> CaseResult {
             for dim in 0..D {
                 let mut extras = vec![dims[dim], dims[dim] + 1, dims[dim] + 255, dims[dim] + 256, dims[dim] + 65536];
                 let stride: usize = dims[dim + 1..].iter().product();
+                extras.extend_from_slice(&[1usize << 62, 1usize << 63, usize::MAX, 1usize << 32, (usize::MAX / stride.max(1)).wrapping_add(1), (usize::MAX - len) / stride.max(1) + 2]);
+                extras.retain(|&e| e >= dims[dim]); // (a wrapped candidate may have become a valid index)
                 let mut z = a;
                 z[dim] = 0;
                 let base = offset(&dl, &z);
@@ -366,8 +375,8 @@ fn main() {
         "Cases: every shape of rank 1..3 with extents 1..=5 and rank 4 with extents 1..=4. Per shape: from_vec/from_slice/new/iter/ \
          into_iter/dims agree; every valid multi-index reads element sum(idx[i]*prod(dims[j>i])) of the construction vector and \
          get_index returns that offset (bijection checked); a unique value written through IndexMut at every index is read back through \
-         iter() in row-major order; every index that exceeds exactly one dimension (by 0, by 1, and up to the largest value whose \
-         flattened offset is still inside the storage) must panic for Index and IndexMut (observed with catch_unwind); wrong data \
+         iter() in row-major order; every index that exceeds exactly one dimension (by 0, by 1, up to the largest value whose \
+         flattened offset is still inside the storage, and huge values 2^32, 2^62, 2^63, MAX, ~MAX/stride whose product with the stride wraps in builds without overflow checks) must panic for Index and IndexMut (observed with catch_unwind); wrong data \
          lengths and zero extents must panic in from_vec, from_slice, new and read; writing then Tensor::read(dims) gives an equal tensor \
          and the written tokens are the elements in iter() order. Equality: all pairs of shapes of equal rank and element count with \
          identical data must compare unequal unless the dims are equal; equal dims with one differing element compare unequal. \
